@@ -20,7 +20,7 @@ RULE = (
     "streams and the reported utility duties, duty-weighted film resistances, counter-current LMTD) and is finite and positive; the "
     "capital and annualised costs on the target equal N(a + b(A/N)^c) and capital x CRF for the reported A and N. part cost: direct "
     "calls of compute_capital_cost / compute_capital_recovery_factor / compute_annual_capital_cost over generated parameters: formula, "
-    "annuity identity sum_t CRF/(1+i)^t = 1, strict monotonicity in area. non-trivial (pipeline) = at least 3 enthalpy intervals with "
+    "annuity identity sum_t CRF/(1+i)^t = 1 for rates from 0.01 % to 600 % per period (rates above 1 are legitimate positive rates) and lives of 1-50 periods, strict monotonicity in area. non-trivial (pipeline) = at least 3 enthalpy intervals with "
     "interleaved stream and utility breakpoints; distinct by canonical JSON."
 )
 ASSUMPTIONS = [
@@ -222,7 +222,7 @@ def area_problem(draw, tier):
             us.append({"name": f"CU{i + 1}", "type": "Cold", "t_supply": lv, "t_target": lv, "heat_flow": None, "dt_cont": draw(dts), "htc": draw(st.sampled_from([0.5, 1.0, 4.0])), "price": 10.0, "active": True})
     opts = {"DO_AREA_TARGETING": True, "DT_CONT": draw(st.sampled_from([2.5, 5.0, 10.0]))}
     if draw(st.booleans()):
-        opts.update({"FIXED_COST": draw(st.sampled_from([0.0, 1000.0, 8000.0])), "VARIABLE_COST": draw(st.sampled_from([100.0, 1200.0, 10000.0])), "COST_EXP": draw(st.sampled_from([0.5, 0.6, 0.81, 1.0])), "DISCOUNT_RATE": draw(st.sampled_from([0.01, 0.07, 0.2])), "SERV_LIFE": draw(st.sampled_from([1.0, 5.0, 20.0, 50.0]))})
+        opts.update({"FIXED_COST": draw(st.sampled_from([0.0, 1000.0, 8000.0])), "VARIABLE_COST": draw(st.sampled_from([100.0, 1200.0, 10000.0])), "COST_EXP": draw(st.sampled_from([0.5, 0.6, 0.81, 1.0])), "DISCOUNT_RATE": draw(st.sampled_from([0.001, 0.01, 0.07, 0.2, 1.0, 1.5, 4.0])), "SERV_LIFE": draw(st.sampled_from([1.0, 5.0, 20.0, 50.0]))})
     return {"streams": ss, "utilities": us, "options": opts}
 
 
@@ -234,7 +234,7 @@ def strat_cost(tier):
             "a": st.sampled_from([0.0, 1000.0, 8000.0, 30000.0]),
             "b": st.sampled_from([1.0, 750.0, 10000.0]),
             "c": st.sampled_from([0.3, 0.5, 0.6, 0.81, 1.0]),
-            "i": st.one_of(st.sampled_from([0.01, 0.07, 0.1, 0.5]), st.integers(1, 500).map(lambda k: k / 1000)),
+            "i": st.one_of(st.sampled_from([0.01, 0.07, 0.1, 0.5, 1.0, 1.5, 3.0]), st.integers(1, 500).map(lambda k: k / 1000), st.integers(1, 60).map(lambda k: k / 10), st.sampled_from([1e-4, 1e-3])),
             "n": st.integers(1, 50).map(float),
             "factor": st.sampled_from([1.001, 1.1, 2.0, 10.0]),
         }
